@@ -336,6 +336,16 @@ func (vm *VM) setFromReflectValue(r int8, v reflect.Value) registerType {
 	case reflect.Interface:
 		vm.setGeneral(r, v.Elem())
 		return generalRegister
+	case reflect.Slice, reflect.Map, reflect.Pointer, reflect.Chan:
+		// An addressable value refers to the variable, element or field it
+		// has been read from: the register gets the value it holds now.
+		if v.CanAddr() {
+			c := reflect.New(v.Type()).Elem()
+			c.Set(v)
+			v = c
+		}
+		vm.setGeneral(r, v)
+		return generalRegister
 	default:
 		vm.setGeneral(r, v)
 		return generalRegister
